@@ -421,7 +421,9 @@ impl<'s> Tokenizer<'s> {
         let mut span = self.span(self.loc());
         if span.start_col == span.end_col {
             span.end_col += 1;
-            span.end_offset += 1;
+            // cover the next character in full so that the range stays a valid
+            // slice of the source (nothing at the end of the input).
+            span.end_offset += self.rest().chars().next().map_or(0, |c| c.len_utf8()) as u32;
         }
         let mut err = Error::new(ErrorKind::SyntaxError, msg);
         err.set_filename_and_span(self.filename, span);
